@@ -1,5 +1,486 @@
-//! placeholder, filled in below
+//! C08 - stored logs are byte-exact and isolated per task (in-process core).
+//! Real `process_reader` + real `Compressor` threads through `verif::capture`, on a
+//! current_thread runtime with a paused clock and a fixed `select!` seed: the scripted writers
+//! are the only source of wake-ups, so "a pause that straddles the flush tick" is an exact,
+//! replayable event.
+
+use crate::*;
+use rayon::prelude::*;
 use serde_json::{json, Value};
-use std::path::Path;
-pub fn run(_tier: &str, _root: &Path) -> Value { json!({}) }
-pub fn replay(_case: &Value, _root: &Path) -> Vec<(String, String)> { vec![] }
+use std::path::{Path, PathBuf};
+use std::time::Duration;
+use tokio::io::AsyncWriteExt;
+
+const TICK_MS: u64 = 500;
+
+#[derive(Clone, Copy, Debug, PartialEq, Eq)]
+pub enum Pause {
+    None,
+    BeforeTick, // to 1 ms before the next flush tick
+    AfterTick,  // to 1 ms after the next flush tick
+    After2,     // to 1 ms after the second next tick
+    OnTick,     // exactly on the next tick
+}
+impl Pause {
+    fn name(&self) -> &'static str {
+        match self {
+            Pause::None => "none",
+            Pause::BeforeTick => "before_tick",
+            Pause::AfterTick => "after_tick",
+            Pause::After2 => "after_2nd_tick",
+            Pause::OnTick => "on_tick",
+        }
+    }
+    fn from(s: &str) -> Pause {
+        match s {
+            "before_tick" => Pause::BeforeTick,
+            "after_tick" => Pause::AfterTick,
+            "after_2nd_tick" => Pause::After2,
+            "on_tick" => Pause::OnTick,
+            _ => Pause::None,
+        }
+    }
+    pub const ALL: [Pause; 5] = [
+        Pause::None,
+        Pause::BeforeTick,
+        Pause::AfterTick,
+        Pause::After2,
+        Pause::OnTick,
+    ];
+}
+
+#[derive(Clone, Debug)]
+pub struct Script {
+    pub steps: Vec<(Pause, Vec<u8>)>,
+    pub final_pause: Pause,
+}
+impl Script {
+    pub fn expected(&self) -> Vec<u8> {
+        self.steps.iter().flat_map(|(_, c)| c.iter().copied()).collect()
+    }
+    pub fn to_value(&self) -> Value {
+        json!({
+            "steps": self.steps.iter().map(|(p, c)| json!({"pause": p.name(), "write": chunk_repr(c)})).collect::<Vec<_>>(),
+            "final_pause": self.final_pause.name(),
+        })
+    }
+    pub fn from_value(v: &Value) -> Script {
+        Script {
+            steps: v["steps"]
+                .as_array()
+                .cloned()
+                .unwrap_or_default()
+                .iter()
+                .map(|s| (Pause::from(s["pause"].as_str().unwrap_or("")), chunk_parse(&s["write"])))
+                .collect(),
+            final_pause: Pause::from(v["final_pause"].as_str().unwrap_or("")),
+        }
+    }
+    pub fn empty() -> Script {
+        Script { steps: vec![], final_pause: Pause::None }
+    }
+}
+
+fn chunk_repr(c: &[u8]) -> Value {
+    if c.len() > 200 {
+        // big chunks: first byte repeated, optional trailing newline
+        json!({"big": c.len(), "byte": c[0], "nl": c.last() == Some(&b'\n')})
+    } else {
+        json!({"hex": c.iter().map(|b| format!("{:02x}", b)).collect::<String>(), "text": String::from_utf8_lossy(c)})
+    }
+}
+fn chunk_parse(v: &Value) -> Vec<u8> {
+    if let Some(n) = v["big"].as_u64() {
+        let mut c = vec![v["byte"].as_u64().unwrap_or(88) as u8; n as usize];
+        if v["nl"].as_bool().unwrap_or(false) {
+            *c.last_mut().unwrap() = b'\n';
+        }
+        c
+    } else {
+        let h = v["hex"].as_str().unwrap_or("");
+        (0..h.len() / 2).map(|i| u8::from_str_radix(&h[2 * i..2 * i + 2], 16).unwrap()).collect()
+    }
+}
+
+async fn do_pause(p: Pause, t0: tokio::time::Instant) {
+    if p == Pause::None {
+        return;
+    }
+    let now = tokio::time::Instant::now();
+    let el = now.duration_since(t0).as_millis() as u64;
+    let next_tick = (el / TICK_MS + 1) * TICK_MS;
+    let target = match p {
+        Pause::BeforeTick => next_tick - 1,
+        Pause::AfterTick => next_tick + 1,
+        Pause::After2 => next_tick + TICK_MS + 1,
+        Pause::OnTick => next_tick,
+        Pause::None => el,
+    };
+    if target > el {
+        tokio::time::sleep_until(t0 + Duration::from_millis(target)).await;
+    }
+}
+
+async fn feed(mut w: tokio::io::DuplexStream, script: Script, t0: tokio::time::Instant) {
+    for (p, c) in script.steps {
+        do_pause(p, t0).await;
+        if w.write_all(&c).await.is_err() {
+            return;
+        }
+        let _ = w.flush().await;
+    }
+    do_pause(script.final_pause, t0).await;
+    drop(w);
+}
+
+pub struct Outcome {
+    pub result: Result<(), String>,
+    pub stored: Vec<(Result<Vec<u8>, String>, Result<Vec<u8>, String>)>,
+}
+
+/// One execution: `members[i]` = (stdout script, stderr script) of group member i.
+pub fn execute(members: &[(Script, Script)], seed: u64, dir: &Path) -> Outcome {
+    let _ = std::fs::create_dir_all(dir);
+    let paths: Vec<(PathBuf, PathBuf)> = (0..members.len())
+        .map(|i| (dir.join(format!("m{}.stdout.zst", i)), dir.join(format!("m{}.stderr.zst", i))))
+        .collect();
+    for (a, b) in &paths {
+        let _ = std::fs::remove_file(a);
+        let _ = std::fs::remove_file(b);
+    }
+    let rt = tokio::runtime::Builder::new_current_thread()
+        .enable_time()
+        .start_paused(true)
+        .rng_seed(tokio::runtime::RngSeed::from_bytes(&seed.to_le_bytes()))
+        .build()
+        .unwrap();
+    let members_c = members.to_vec();
+    let paths_c = paths.clone();
+    let result = rt.block_on(async move {
+        let t0 = tokio::time::Instant::now();
+        let mut readers = vec![];
+        for (so, se) in members_c {
+            let (w0, r0) = tokio::io::duplex(65536);
+            let (w1, r1) = tokio::io::duplex(65536);
+            tokio::spawn(feed(w0, so, t0));
+            tokio::spawn(feed(w1, se, t0));
+            readers.push((r0, r1));
+        }
+        monorail::verif::capture(readers, paths_c).await
+    });
+    drop(rt);
+    let dec = |p: &Path| -> Result<Vec<u8>, String> {
+        let f = std::fs::File::open(p).map_err(|e| format!("open: {}", e))?;
+        zstd::stream::decode_all(f).map_err(|e| format!("decode: {}", e))
+    };
+    let stored = paths.iter().map(|(a, b)| (dec(a), dec(b))).collect();
+    Outcome { result, stored }
+}
+
+fn is_subsequence(small: &[u8], big: &[u8]) -> bool {
+    let mut i = 0;
+    for b in big {
+        if i < small.len() && small[i] == *b {
+            i += 1;
+        }
+    }
+    i == small.len()
+}
+
+/// Defects of one execution as (sig, detail).
+pub fn judge(members: &[(Script, Script)], out: &Outcome) -> Vec<(String, String)> {
+    let mut d = vec![];
+    if let Err(e) = &out.result {
+        if !e.starts_with("shutdown:") {
+            d.push(("capture-error".to_string(), e.clone()));
+        }
+    }
+    for (i, (so, se)) in members.iter().enumerate() {
+        for (name, script, got) in [("stdout", so, &out.stored[i].0), ("stderr", se, &out.stored[i].1)] {
+            let want = script.expected();
+            match got {
+                Err(e) => d.push(("undecodable".to_string(), format!("member {} {}: {}", i, name, e))),
+                Ok(g) => {
+                    if g != &want {
+                        let sig = if g.len() < want.len() && is_subsequence(g, &want) {
+                            "bytes-lost"
+                        } else {
+                            "bytes-wrong"
+                        };
+                        d.push((
+                            sig.to_string(),
+                            format!(
+                                "member {} {}: stored {} bytes {:?}, written {} bytes {:?}",
+                                i,
+                                name,
+                                g.len(),
+                                String::from_utf8_lossy(&g[..g.len().min(40)]),
+                                want.len(),
+                                String::from_utf8_lossy(&want[..want.len().min(40)])
+                            ),
+                        ));
+                    }
+                }
+            }
+        }
+    }
+    d
+}
+
+fn thread_dir(root: &Path) -> PathBuf {
+    root.join(format!("w{}", rayon::current_thread_index().unwrap_or(999)))
+}
+
+fn chunks(tier: &str) -> Vec<Vec<u8>> {
+    let mut big = vec![b'X'; 20_000];
+    let mut v: Vec<Vec<u8>> = vec![
+        b"A".to_vec(),
+        b"B\n".to_vec(),
+        b"CC\nD".to_vec(),
+        b"\xff\x00\n".to_vec(),
+        big.clone(),
+    ];
+    if tier == "thorough" {
+        v.push(b"\n".to_vec());
+        *big.last_mut().unwrap() = b'\n';
+        v.push(big);
+    }
+    v
+}
+
+fn all_scripts(alpha: &[Vec<u8>], pauses: &[Pause], len: usize, finals: &[Pause]) -> Vec<Script> {
+    let mut steps: Vec<(Pause, Vec<u8>)> = vec![];
+    for p in pauses {
+        for c in alpha {
+            steps.push((*p, c.clone()));
+        }
+    }
+    let mut out = vec![];
+    let mut cur: Vec<Vec<(Pause, Vec<u8>)>> = vec![vec![]];
+    for _ in 0..len {
+        let mut next = vec![];
+        for s in &cur {
+            for st in &steps {
+                let mut n = s.clone();
+                n.push(st.clone());
+                next.push(n);
+            }
+        }
+        for s in &next {
+            for f in finals {
+                out.push(Script { steps: s.clone(), final_pause: *f });
+            }
+        }
+        cur = next;
+    }
+    out
+}
+
+fn default_script(id: &str) -> Script {
+    Script {
+        steps: vec![
+            (Pause::None, format!("{}-line1\n", id).into_bytes()),
+            (Pause::None, format!("{}-line2\n", id).into_bytes()),
+        ],
+        final_pause: Pause::None,
+    }
+}
+
+/// single-deviation variants of the default script of stream `id`
+fn deviations(id: &str) -> Vec<(String, Script)> {
+    let l1 = format!("{}-line1\n", id).into_bytes();
+    let l2 = format!("{}-line2\n", id).into_bytes();
+    let mut out = vec![];
+    for p in [Pause::BeforeTick, Pause::AfterTick, Pause::After2, Pause::OnTick] {
+        // split line 1 in the middle with a pause
+        out.push((
+            format!("split+{}", p.name()),
+            Script {
+                steps: vec![(Pause::None, l1[..3].to_vec()), (p, l1[3..].to_vec()), (Pause::None, l2.clone())],
+                final_pause: Pause::None,
+            },
+        ));
+        // whole lines separated by a pause
+        out.push((
+            format!("pause+{}", p.name()),
+            Script { steps: vec![(Pause::None, l1.clone()), (p, l2.clone())], final_pause: Pause::None },
+        ));
+    }
+    out.push((
+        "no-final-newline".into(),
+        Script { steps: vec![(Pause::None, l1.clone()), (Pause::None, l2[..l2.len() - 1].to_vec())], final_pause: Pause::None },
+    ));
+    out.push((
+        "no-final-newline+tick-before-eof".into(),
+        Script { steps: vec![(Pause::None, l1.clone()), (Pause::None, l2[..l2.len() - 1].to_vec())], final_pause: Pause::AfterTick },
+    ));
+    out.push((
+        "binary".into(),
+        Script { steps: vec![(Pause::None, l1.clone()), (Pause::None, vec![0xff, 0x00, 0xfe, b'\n'])], final_pause: Pause::None },
+    ));
+    let mut big = vec![id.as_bytes()[0]; 20_000];
+    big.push(b'\n');
+    out.push((
+        "big".into(),
+        Script { steps: vec![(Pause::None, big), (Pause::None, l2.clone())], final_pause: Pause::None },
+    ));
+    out.push(("empty".into(), Script::empty()));
+    out
+}
+
+fn members_value(m: &[(Script, Script)]) -> Value {
+    json!(m.iter().map(|(a, b)| json!({"stdout": a.to_value(), "stderr": b.to_value()})).collect::<Vec<_>>())
+}
+
+pub fn run(tier: &str, root: &Path, shard: usize, nshards: usize) -> Value {
+    let rep = Report::new();
+    let thorough = tier == "thorough";
+    let seeds: Vec<u64> = if thorough { (0..16).collect() } else { (0..4).collect() };
+    let alpha = chunks(tier);
+    let finals = [Pause::None, Pause::AfterTick];
+    // ---- part 1: every single-stream script up to length L (other stream empty)
+    let len = 3;
+    let mut scripts = all_scripts(&alpha, &Pause::ALL, len, &finals);
+    let mut l4 = 0usize;
+    if thorough {
+        // length 4 over a reduced alphabet (the chunks that differ in newline structure)
+        let small: Vec<Vec<u8>> = vec![b"A".to_vec(), b"B\n".to_vec(), b"CC\nD".to_vec()];
+        let extra: Vec<Script> = all_scripts(&small, &Pause::ALL, 4, &finals)
+            .into_iter()
+            .filter(|s| s.steps.len() == 4)
+            .collect();
+        l4 = extra.len();
+        scripts.extend(extra);
+    }
+    let seed_dependent = std::sync::atomic::AtomicU64::new(0);
+    let outcomes_seen = std::sync::Mutex::new(std::collections::BTreeSet::<u64>::new());
+    scripts.par_iter().enumerate().filter(|(k, _)| k % nshards == shard).for_each(|(k, s)| {
+        let dir = thread_dir(root);
+        let mut first: Option<Vec<u8>> = None;
+        let straddles = s.steps.iter().enumerate().any(|(i, (p, _))| {
+            *p != Pause::None && i > 0 && s.steps[i - 1].1.last() != Some(&b'\n')
+        });
+        if straddles {
+            rep.nontrivial(1);
+        }
+        let local_seeds: &[u64] = if s.steps.len() == 4 { &seeds[..seeds.len().min(4)] } else { &seeds };
+        for &seed in local_seeds {
+            rep.eval(1);
+            let members = vec![(s.clone(), Script::empty())];
+            let out = execute(&members, seed, &dir);
+            let got = out.stored[0].0.clone().unwrap_or_default();
+            {
+                use std::hash::{Hash, Hasher};
+                let mut h = std::collections::hash_map::DefaultHasher::new();
+                got.hash(&mut h);
+                let mut g = outcomes_seen.lock().unwrap();
+                if g.len() < 100_000 {
+                    g.insert(h.finish());
+                }
+            }
+            match &first {
+                None => first = Some(got),
+                Some(f) => {
+                    if f != &got {
+                        seed_dependent.fetch_add(1, std::sync::atomic::Ordering::Relaxed);
+                    }
+                }
+            }
+            for (sig, detail) in judge(&members, &out) {
+                let rank = (s.steps.len() as u64) * 10_000_000 + (k as u64) * 16 + seed;
+                rep.violation(&sig, rank, json!({"members": members_value(&members), "seed": seed}), detail);
+            }
+        }
+    });
+    // ---- part 2: groups of several members, deviation-bounded
+    let bound = if thorough { 2 } else { 1 };
+    let ids = ["t0o", "t0e", "t1o", "t1e"]; // 2 targets x 2 streams, distinct alphabets
+    let devs: Vec<Vec<(String, Script)>> = ids.iter().map(|id| deviations(id)).collect();
+    let mut plans: Vec<Vec<Option<usize>>> = vec![vec![None; 4]];
+    for s in 0..4 {
+        for d in 0..devs[s].len() {
+            let mut p = vec![None; 4];
+            p[s] = Some(d);
+            plans.push(p);
+        }
+    }
+    if bound >= 2 {
+        for s1 in 0..4 {
+            for s2 in (s1 + 1)..4 {
+                for d1 in 0..devs[s1].len() {
+                    for d2 in 0..devs[s2].len() {
+                        let mut p = vec![None; 4];
+                        p[s1] = Some(d1);
+                        p[s2] = Some(d2);
+                        plans.push(p);
+                    }
+                }
+            }
+        }
+    }
+    let multi_execs = std::sync::atomic::AtomicU64::new(0);
+    plans.par_iter().enumerate().filter(|(k, _)| k % nshards == shard).for_each(|(k, plan)| {
+        let dir = thread_dir(root);
+        let pick = |s: usize| -> Script {
+            match plan[s] {
+                None => default_script(ids[s]),
+                Some(d) => devs[s][d].1.clone(),
+            }
+        };
+        let members = vec![(pick(0), pick(1)), (pick(2), pick(3))];
+        for &seed in &seeds[..2] {
+            rep.eval(1);
+            multi_execs.fetch_add(1, std::sync::atomic::Ordering::Relaxed);
+            rep.nontrivial(if seed == 0 { 1 } else { 0 });
+            let out = execute(&members, seed, &dir);
+            for (sig, detail) in judge(&members, &out) {
+                rep.violation(&sig, 900_000_000 + (k as u64) * 16 + seed, json!({"members": members_value(&members), "seed": seed}), detail);
+            }
+        }
+    });
+    // group sizes moving the round-robin registration over the two compressor threads
+    for n in [1usize, 2, 3, 5, 8] {
+        if n % nshards != shard {
+            continue;
+        }
+        let members: Vec<(Script, Script)> = (0..n)
+            .map(|i| (default_script(&format!("g{}o", i)), default_script(&format!("g{}e", i))))
+            .collect();
+        rep.eval(1);
+        let out = execute(&members, 0, &thread_dir(root));
+        for (sig, detail) in judge(&members, &out) {
+            rep.violation(&sig, 990_000_000 + n as u64, json!({"members": members_value(&members), "seed": 0}), detail);
+        }
+    }
+    rep.extra("single_stream_scripts_total", json!(scripts.len()));
+    rep.extra("length4_scripts_total", json!(l4));
+    rep.extra("seeds_list", json!(seeds));
+    rep.extra("multi_stream_plans_total", json!(plans.len()));
+    rep.extra("scripts_whose_stored_bytes_differ_between_seeds", json!(seed_dependent.load(std::sync::atomic::Ordering::Relaxed)));
+    rep.extra("stored_outcome_hashes_set", json!(outcomes_seen.lock().unwrap().iter().map(|h| format!("{:x}", h)).collect::<Vec<_>>()));
+    rep.sample(json!({"members": members_value(&[(Script { steps: vec![(Pause::None, b"AAA".to_vec()), (Pause::AfterTick, b"BBB\n".to_vec())], final_pause: Pause::None }, Script::empty())]), "seed": 0}));
+    rep.sample(json!({"members": members_value(&[(scripts[scripts.len() / 2].clone(), Script::empty())]), "seed": 1}));
+    rep.finish(
+        "part 1: every script (sequence of (pause class, chunk) steps, then a final pause class before EOF) of length <=3 over the chunk alphabet x 5 pause classes relative to the 500 ms flush tick, one stream, every select! seed listed (thorough adds length 4 over a 3-chunk alphabet); part 2: 2 members x 2 streams with per-stream distinct bytes, default script plus every combination of <=bound single-stream deviations (split+pause, pause, no final newline, binary, 20 kB line, empty), and group sizes 1,2,3,5,8; each execution = real process_reader + real Compressor threads under a paused clock; oracle: every stored file decodes to exactly the bytes written to that stream; non-trivial = scripts in which a pause follows an unterminated line (part 1) / every plan (part 2)",
+        true,
+        json!({"script_len": len, "chunks": alpha.len(), "pause_classes": 5, "final_pause_classes": 2, "deviation_bound": bound, "seeds": seeds.len()}),
+    )
+}
+
+pub fn replay(case: &Value, root: &Path) -> Vec<(String, String)> {
+    let members: Vec<(Script, Script)> = case["members"]
+        .as_array()
+        .cloned()
+        .unwrap_or_default()
+        .iter()
+        .map(|m| (Script::from_value(&m["stdout"]), Script::from_value(&m["stderr"])))
+        .collect();
+    let seed = case["seed"].as_u64().unwrap_or(0);
+    let a = execute(&members, seed, &root.join("replay"));
+    let b = execute(&members, seed, &root.join("replay"));
+    let (ja, jb) = (judge(&members, &a), judge(&members, &b));
+    if ja != jb {
+        return vec![("engine-divergence".into(), format!("two replays differ: {:?} vs {:?}", ja, jb))];
+    }
+    ja
+}
